@@ -1,10 +1,22 @@
-"""Minimal stand-in for `click`: only what xsdata.codegen.exceptions needs (API route)."""
+"""Stand-in for `click` (absent from this sandbox, DESIGN §1.1).
+
+Two users: xsdata.codegen.exceptions (ClickException, echo) on the API route, and xsdata.cli / xsdata.utils.click on
+the command-line route of C12.  For the latter this module implements the small part of click's documented behaviour
+that xsdata's declarations use: groups and commands, positional arguments, value options with long/short names,
+boolean `--x/--no-x` flags, `is_flag` options, an explicit destination name as the last declaration, defaults,
+ParamType.convert (Choice, Path, custom types), `--opt=value`, and `Command.main(args, standalone_mode=False)`.
+Nothing of xsdata's own logic lives here.
+"""
 import sys
 
 
 def echo(message=None, file=None, nl=True, err=False, color=None):
     out = file or (sys.stderr if err else sys.stdout)
     out.write(("" if message is None else str(message)) + ("\n" if nl else ""))
+
+
+def style(text, **kwargs):
+    return str(text)
 
 
 class ClickException(Exception):
@@ -22,3 +34,267 @@ class ClickException(Exception):
 
     def show(self, file=None):
         echo("Error: {}".format(self.format_message()), file=file or sys.stderr)
+
+
+class UsageError(ClickException):
+    exit_code = 2
+
+
+class BadParameter(UsageError):
+    def __init__(self, message, ctx=None, param=None, param_hint=None):
+        super().__init__(message)
+
+
+class Context:
+    def __init__(self, command=None, parent=None, info_name=None):
+        self.command, self.parent, self.info_name = command, parent, info_name
+        self.params = {}
+        self.obj = None
+        self._close = []
+
+    def call_on_close(self, f):
+        self._close.append(f)
+        return f
+
+    def close(self):
+        for f in reversed(self._close):
+            f()
+        self._close = []
+
+
+class ParamType:
+    name = "text"
+
+    def convert(self, value, param, ctx):
+        return value
+
+    def fail(self, message, param=None, ctx=None):
+        raise BadParameter(message, ctx=ctx, param=param)
+
+    def __call__(self, value, param=None, ctx=None):
+        return self.convert(value, param, ctx)
+
+
+class Choice(ParamType):
+    name = "choice"
+
+    def __init__(self, choices, case_sensitive=True):
+        self.choices = list(choices)
+
+    def convert(self, value, param, ctx):
+        if value in self.choices:
+            return value
+        self.fail(f"{value!r} is not one of {self.choices}", param, ctx)
+
+
+class Path(ParamType):
+    name = "path"
+
+    def __init__(self, **kwargs):
+        pass
+
+
+class _FuncType(ParamType):
+    def __init__(self, func):
+        self.func = func
+
+    def convert(self, value, param, ctx):
+        try:
+            return self.func(value)
+        except ValueError:
+            self.fail(f"{value!r} is not a valid {getattr(self.func, '__name__', 'value')}", param, ctx)
+
+
+def _as_type(tp):
+    if tp is None or isinstance(tp, ParamType):
+        return tp
+    if tp in (str,):
+        return None
+    if callable(tp):
+        return _FuncType(tp)
+    return None
+
+
+class Parameter:
+    def __init__(self, decls, type=None, default=None, required=False, **attrs):
+        self.decls, self.type, self.default, self.required = list(decls), _as_type(type), default, required
+
+    def convert(self, value, ctx):
+        if value is None or self.type is None:
+            return value
+        return self.type.convert(value, self, ctx)
+
+
+class Argument(Parameter):
+    def __init__(self, decls, **attrs):
+        super().__init__(decls, **attrs)
+        self.name = decls[0].replace("-", "_").lower()
+
+
+class Option(Parameter):
+    def __init__(self, decls, is_flag=False, help=None, **attrs):
+        super().__init__(decls, **attrs)
+        self.is_flag = is_flag
+        self.on, self.off, self.value_names = [], [], []
+        explicit = None
+        for d in decls:
+            if "/" in d:
+                a, b = d.split("/", 1)
+                self.on.append(a.strip())
+                self.off.append(b.strip())
+                self.is_flag = True
+            elif d.startswith("-"):
+                (self.on if self.is_flag else self.value_names).append(d)
+            else:
+                explicit = d
+        longest = max((n for n in self.on + self.value_names), key=lambda n: (n.startswith("--"), len(n)))
+        self.name = explicit or longest.lstrip("-").replace("-", "_").lower()
+        if self.is_flag and self.default is None and "default" not in attrs:
+            self.default = None
+
+
+class Command:
+    def __init__(self, name, callback, params):
+        self.name, self.callback, self.params = name, callback, params
+        self.pass_ctx = getattr(callback, "__click_pass_context__", False)
+
+    def parse(self, args, ctx):
+        values = {p.name: p.default for p in self.params}
+        positional = [p for p in self.params if isinstance(p, Argument)]
+        options = [p for p in self.params if isinstance(p, Option)]
+        lookup = {}
+        for o in options:
+            for n in o.on:
+                lookup[n] = (o, True)
+            for n in o.off:
+                lookup[n] = (o, False)
+            for n in o.value_names:
+                lookup[n] = (o, None)
+        rest, i, only_positional = [], 0, False
+        args = list(args)
+        while i < len(args):
+            a = args[i]
+            i += 1
+            if only_positional or not a.startswith("-") or a == "-":
+                rest.append(a)
+                continue
+            if a == "--":
+                only_positional = True
+                continue
+            inline = None
+            if a.startswith("--") and "=" in a:
+                a, inline = a.split("=", 1)
+            if a not in lookup:
+                if isinstance(self, Group):
+                    rest.append(a)
+                    rest.extend(args[i:])
+                    break
+                raise UsageError(f"No such option: {a}")
+            opt, flag = lookup[a]
+            if flag is not None:
+                values[opt.name] = flag
+            else:
+                if inline is None:
+                    if i >= len(args):
+                        raise UsageError(f"Option {a} requires an argument")
+                    inline = args[i]
+                    i += 1
+                values[opt.name] = opt.convert(inline, ctx)
+        return values, positional, rest
+
+    def invoke(self, args, parent=None):
+        ctx = Context(self, parent, self.name)
+        values, positional, rest = self.parse(args, ctx)
+        for p in positional:
+            if rest:
+                values[p.name] = p.convert(rest.pop(0), ctx)
+            elif p.required and p.default is None:
+                raise UsageError(f"Missing argument {p.name.upper()!r}")
+        if rest:
+            raise UsageError(f"Got unexpected extra arguments ({' '.join(rest)})")
+        ctx.params = values
+        return self.callback(ctx, **values) if self.pass_ctx else self.callback(**values)
+
+    def main(self, args=None, prog_name=None, standalone_mode=True, **extra):
+        args = list(sys.argv[1:] if args is None else args)
+        try:
+            return self.invoke(args)
+        except ClickException as e:
+            if not standalone_mode:
+                raise
+            e.show()
+            sys.exit(e.exit_code)
+
+    def __call__(self, *args, **kwargs):
+        return self.main(*args, **kwargs)
+
+
+class Group(Command):
+    def __init__(self, name, callback, params):
+        super().__init__(name, callback, params)
+        self.commands = {}
+
+    def command(self, name=None, **attrs):
+        def decorator(f):
+            cmd = _make(Command, name or f.__name__.replace("_", "-"), f)
+            self.commands[cmd.name] = cmd
+            return cmd
+        return decorator
+
+    def invoke(self, args, parent=None):
+        ctx = Context(self, parent, self.name)
+        names = set(self.commands)
+        split = next((i for i, a in enumerate(args) if a in names), None)
+        if split is None:
+            raise UsageError("Missing command.")
+        values, _, rest = self.parse(args[:split], ctx)
+        if rest:
+            raise UsageError(f"No such command {rest[0]!r}")
+        ctx.params = values
+        try:
+            self.callback(ctx, **values) if self.pass_ctx else self.callback(**values)
+            return self.commands[args[split]].invoke(args[split + 1:], ctx)
+        finally:
+            ctx.close()
+
+
+def _make(cls, name, f):
+    params = list(reversed(getattr(f, "__click_params__", [])))
+    return cls(name, f, params)
+
+
+def _attach(f, param):
+    if isinstance(f, Command):
+        f.params.insert(0, param)
+    else:
+        f.__dict__.setdefault("__click_params__", []).append(param)
+    return f
+
+
+def option(*decls, **attrs):
+    return lambda f: _attach(f, Option(decls, **attrs))
+
+
+def argument(*decls, **attrs):
+    return lambda f: _attach(f, Argument(decls, **attrs))
+
+
+def version_option(version=None, *decls, **attrs):
+    return lambda f: f
+
+
+def pass_context(f):
+    f.__click_pass_context__ = True
+    return f
+
+
+def group(name=None, **attrs):
+    def decorator(f):
+        return _make(Group, name or f.__name__, f)
+    return decorator
+
+
+def command(name=None, **attrs):
+    def decorator(f):
+        return _make(Command, name or f.__name__.replace("_", "-"), f)
+    return decorator
